@@ -94,10 +94,12 @@ TableQStep ==
     /\ ln' = ln + 1 /\ UNCHANGED <<tid, fin, cvars>>
 CondRowOK(r) == /\ \A i \in 1..(Len(r.vals) - 1) : r.vals[i] <= r.vals[i + 1] + 1
                 /\ \A i \in 1..Len(r.vals) : r.vals[i] >= -1 /\ r.vals[i] <= E.one + 1
-                /\ r.lim[1] <= 1 /\ r.lim[1] >= -1 /\ r.lim[2] >= 9999 /\ r.lim[2] <= 10001
+                \* the limits at -infinity and +infinity are 0 and 1
+                /\ r.lim[1] = 0 /\ r.lim[2] = 10000
 \* the inverse is judged where the conditional distribution is strictly increasing (for eta = 0 or 1 it is flat on one side)
-StrictAt(r, i) == (i = 1 \/ r.vals[i - 1] + 1 < r.vals[i]) /\ (i = Len(r.vals) \/ r.vals[i] + 1 < r.vals[i + 1])
-CondRowInv(r) == \A i \in 1..Len(r.back) : StrictAt(r, i) => (r.back[i] >= 999990 /\ r.back[i] <= 1000010)
+\* (well separated from both neighbours, 1e-5, so that the inversion is well conditioned in floating point)
+StrictAt(r, i) == (i = 1 \/ r.vals[i - 1] + 100 < r.vals[i]) /\ (i = Len(r.vals) \/ r.vals[i] + 100 < r.vals[i + 1])
+CondRowInv(r) == \A i \in 1..Len(r.back) : StrictAt(r, i) => (r.back[i] >= 999900 /\ r.back[i] <= 1000100)
 CondQStep ==
     /\ More /\ E.e = "CondQ"
     /\ Judge(<< <<"ConditionalDistribution", \A i \in 1..Len(E.rows) : CondRowOK(E.rows[i])>>,
